@@ -142,6 +142,8 @@ extern bool vp_hang_allowed;  /* harness: is blocking forever acceptable right n
 extern bool vp_in_child;      /* executing on the child side of fork */
 extern int vp_side_child;     /* harness: fork returns 0 (child side) instead of a pid */
 extern uint64_t vp_sigmask;   /* calling thread's signal mask */
+extern uint64_t vp_sigmask0;  /* the caller's mask before start */
+extern bool vp_sigmask0_valid;
 extern int vp_sigaction_calls, vp_chdir_calls, vp_sigprocmask_calls;
 extern int vp_calls_pipe, vp_calls_open, vp_calls_fork, vp_calls_total;
 extern int vp_kill_calls, vp_waitpid_calls, vp_poll_calls;
